@@ -65,6 +65,14 @@ def observe(parts, scratch, opt):
     findings = [[sevs.index(r.severity) for r in check_safety(p).results] for p in sp]
     lib_sev = [check_safety(p).severity.name for p in sp]
     obs = {"findings": findings, "lib": lib_sev, "n": len(parts)}
+    # bool(results): "True if all analyses failed to find any unsafe operations"
+    bools = []
+    for p in sp:
+        try:
+            bools.append(bool(check_safety(p)))
+        except Exception as e:
+            bools.append(f"raised {type(e).__name__}: {e}")
+    obs["bool"] = bools
     # the severity a report carries does not depend on how verbose the report is asked to be
     vs, vj = [], []
     for p in sp:
@@ -126,6 +134,9 @@ def oracle(obs):
     ranks = [max([dr(f) for f in fs], default=0) for fs in obs["findings"]]
     if [DOC[r] for r in ranks] != obs["lib"]:
         return f"library verdict {obs['lib']} is not the max of the findings {[DOC[r] for r in ranks]}"
+    for i, r in enumerate(ranks):
+        if obs["bool"][i] is not (r == 0):
+            return f"bool(check_safety(pickle {i})) = {obs['bool'][i]!r} but its severity is {DOC[r]}"
     if obs["ils"] != (ranks[0] == 0):
         return f"is_likely_safe={obs['ils']} but first pickle severity is {DOC[ranks[0]]}"
     for ti, (raised, sevname) in enumerate(obs["loader"]):
@@ -164,7 +175,9 @@ def model_expect(drv, obs_list):
 def real_faces_line(obs, thr):
     first_raise = obs["loader"][thr][0]
     names = " ".join(obs["cli_json"] or ["<no-report>"])
-    return f"(faces {'T' if obs['ils'] else 'F'} {'T' if first_raise else 'F'} {obs['cli_rc']} ({names}))"
+    b = obs["bool"][0]
+    return (f"(faces {'T' if obs['ils'] else 'F'} {('T' if b else 'F') if isinstance(b, bool) else '<' + b + '>'} "
+            f"{'T' if first_raise else 'F'} {obs['cli_rc']} ({names}))")
 
 
 def main(tier, seed):
